@@ -232,7 +232,11 @@ def _hendrix(ctx, col):
         want_init = ("scatter", cur_y, ("tuple", (ZERO, y)), pu_entry(ZERO, y))
         want_body = ("scatter", cur_u, ("tuple", (T_add(u, ONE), y)), pu_entry(T_add(u, ONE), y))
         cnt_ok = inner[2] == T_sub(T_sub(MD, y), ONE)
-        if inner[3] != want_init:
+        # the same table written as one loop over u = 0 .. max_demand - y - 1 (no separate u = 0 statement)
+        merged = inner[3] == cur_y and inner[2] == T_sub(MD, y) and inner[4] == ("scatter", cur_u, ("tuple", (u, y)), pu_entry(u, y))
+        if merged:
+            ok_pu, why_pu = True, "pu[u, y] = sum_(x >= u, x + y < max_demand) Poisson(x + y; mean_b) * Binomial(u; x, substitution_probability) for every u >= 0 and y (single loop)"
+        elif inner[3] != want_init:
             why_pu = f"pu[0, y] is {brief(inner[3][3] if inner[3][0] == 'scatter' else inner[3], 260)}; documented: sum_x Poisson(x + y; mean_b) * Binomial(0; x, substitution_probability)"
         elif inner[4] != want_body:
             why_pu = f"pu[u, y] is {brief(inner[4][3] if inner[4][0] == 'scatter' else inner[4], 260)}; documented: sum_(x>=u) Poisson(x + y; mean_b) * Binomial(u; x, substitution_probability)"
